@@ -7,12 +7,10 @@ import SodiumModel.Proofs.Alloc
   That the kernel really faults / that `raise` really terminates is the operating system's part and
   is observed by the fork/probe correspondence.
 
-  NOTE (finding): the originally conjectured `layout_spec` (all conjuncts under the acceptance test
-  `size < 2^64 − 1 − 4·pg`) is FALSE: for the 14 sizes `2^64 − 4·pg − 15 ≤ size ≤ 2^64 − 4·pg − 2`
-  the request passes the ENOMEM test of `_sodium_malloc` but `total_size = 3·pg + unprotected_size`
-  is exactly 2^64 and wraps to 0 (`layout_total_wraps` below; the C code then calls `mmap(…, 0, …)`,
-  which fails, so NULL is still returned). It is replaced by `layout_spec_nowrap` (full statement,
-  `size + 16 + 4·pg ≤ 2^64`) and `layout_spec_partial` (acceptance hypothesis, total modulo 2^64).
+  NOTE (finding, fixed): with the former guard `size >= SIZE_MAX - page_size * 4U` the 14 sizes
+  `2^64 − 4·pg − 15 ≤ size ≤ 2^64 − 4·pg − 2` were accepted although `total_size = 3·pg +
+  unprotected_size` is exactly 2^64 and wraps to 0 (`old_guard_insufficient`). The guard is now
+  `page_size * 5U`; every theorem below is stated for the new guard.
 -/
 open Sodium Sodium.Model.Alloc
 namespace Sodium.C17
@@ -26,11 +24,10 @@ theorem pageRound_spec (pg size : UInt64) (hpg : PgOk pg) (hs : size.toNat + pg.
   obtain ⟨k, _, hk30, hk⟩ := hpg
   exact AllocP.pageRound_toNat pg size k hk30 hk hs
 
-/-- Layout of every request up to `2^64 − 4·pg − 16`: the user region ends exactly where the
-    unprotected region ends (so the byte after it lies in the trailing PROT_NONE page), the 16-byte
-    canary sits immediately before it inside the read-write area, and no `size_t` expression wraps. -/
-theorem layout_spec_nowrap (pg size : UInt64) (hpg : PgOk pg)
-    (h : size.toNat + 16 + 4 * pg.toNat ≤ 2 ^ 64) :
+/-- Layout of every accepted request: the user region ends exactly where the unprotected region
+    ends (so the byte after it lies in the trailing PROT_NONE page), the 16-byte canary sits
+    immediately before it inside the read-write area, and no `size_t` expression wraps. -/
+theorem layout_spec (pg size : UInt64) (hpg : PgOk pg) (h : size.toNat < 2 ^ 64 - 1 - 5 * pg.toNat) :
     let L := layout pg size
     L.userOff.toNat + size.toNat = L.unprotOff.toNat + L.unprotSize.toNat ∧
     L.canaryOff.toNat + 16 = L.userOff.toNat ∧
@@ -40,47 +37,41 @@ theorem layout_spec_nowrap (pg size : UInt64) (hpg : PgOk pg)
     pg.toNat ∣ L.unprotSize.toNat ∧
     16 + size.toNat ≤ L.unprotSize.toNat ∧ L.unprotSize.toNat < 16 + size.toNat + pg.toNat := by
   obtain ⟨k, hk5, hk30, hk⟩ := hpg
-  obtain ⟨h1, h2, h3, h4, -, h6, h7, h8⟩ := AllocP.layout_spec_mod pg size k hk5 hk30 hk (by omega)
-  exact ⟨h1, h2, h3, h4, AllocP.layout_total_nowrap pg size k hk5 hk30 hk h, h6, h7, h8⟩
-
-/-- Layout of every request accepted by `_sodium_malloc`: everything of `layout_spec_nowrap` except
-    that `total_size` is only known modulo 2^64 (it does wrap, see `layout_total_wraps`). -/
-theorem layout_spec_partial (pg size : UInt64) (hpg : PgOk pg) (h : size.toNat < 2 ^ 64 - 1 - 4 * pg.toNat) :
-    let L := layout pg size
-    L.userOff.toNat + size.toNat = L.unprotOff.toNat + L.unprotSize.toNat ∧
-    L.canaryOff.toNat + 16 = L.userOff.toNat ∧
-    L.unprotOff.toNat ≤ L.canaryOff.toNat ∧
-    L.unprotOff.toNat = 2 * pg.toNat ∧
-    L.total.toNat = (3 * pg.toNat + L.unprotSize.toNat) % 2 ^ 64 ∧
-    pg.toNat ∣ L.unprotSize.toNat ∧
-    16 + size.toNat ≤ L.unprotSize.toNat ∧ L.unprotSize.toNat < 16 + size.toNat + pg.toNat := by
-  obtain ⟨k, hk5, hk30, hk⟩ := hpg
-  exact AllocP.layout_spec_mod pg size k hk5 hk30 hk h
-
-/-- the counterexample to the unrestricted layout conjecture: in the 14-byte window just below the
-    ENOMEM threshold the request is accepted but `total_size` wraps to 0 -/
-theorem layout_total_wraps (pg size : UInt64) (hpg : PgOk pg)
-    (h : size.toNat < 2 ^ 64 - 1 - 4 * pg.toNat) (hc : 2 ^ 64 - 15 - 4 * pg.toNat ≤ size.toNat) :
-    sodium_malloc pg size ≠ .enomem ∧ (layout pg size).total = 0 ∧
-    (layout pg size).unprotSize.toNat = 2 ^ 64 - 3 * pg.toNat := by
-  obtain ⟨k, hk5, hk30, hk⟩ := hpg
   have hb := AllocP.pg_bounds pg k hk5 hk30 hk
-  refine ⟨fun e => ?_, AllocP.layout_total_wrap pg size k hk5 hk30 hk h (by omega)⟩
-  have := (AllocP.malloc_enomem_iff pg size k hk5 hk30 hk).mp e
-  omega
+  obtain ⟨h1, h2, h3, h4, -, h6, h7, h8⟩ := AllocP.layout_spec_mod pg size k hk5 hk30 hk (by omega)
+  exact ⟨h1, h2, h3, h4, AllocP.layout_total_nowrap pg size k hk5 hk30 hk (by omega), h6, h7, h8⟩
+
+/-- whatever `_sodium_malloc` accepts has a mapping size that did not wrap, and the user region
+    ends exactly at the trailing guard page -/
+theorem accepted_never_wraps (pg size : UInt64) (hpg : PgOk pg) (L : Layout) (calls : List Sys)
+    (hm : sodium_malloc pg size = .ok L calls) :
+    L.total.toNat = 3 * pg.toNat + L.unprotSize.toNat ∧
+    L.userOff.toNat + size.toNat = L.unprotOff.toNat + L.unprotSize.toNat := by
+  have hL := (AllocP.malloc_ok_inv pg size L calls hm).1
+  have hb : size.toNat < 2 ^ 64 - 1 - 5 * pg.toNat := by
+    obtain ⟨k, hk5, hk30, hk⟩ := hpg
+    exact AllocP.malloc_ok_bound pg size k hk5 hk30 hk L calls hm
+  obtain ⟨h1, -, -, -, h5, -⟩ := layout_spec pg size hpg hb
+  rw [hL]; exact ⟨h5, h1⟩
+
+/-- the former guard `size >= SIZE_MAX - page_size * 4U` was insufficient: this size passed it
+    although its `total_size` wraps to 0 -/
+theorem old_guard_insufficient :
+    (layout 4096 0xFFFFFFFFFFFFBFFE).total = 0 ∧
+    ¬ (0xFFFFFFFFFFFFBFFE : UInt64) ≥ 0xFFFFFFFFFFFFFFFF - 4096 * 4 := by decide
 
 /-- the base of the mapping is recovered from the user pointer (the `assert` in `_sodium_malloc`
     always holds), for every page-aligned mapping address -/
-theorem recover_base (pg size base : UInt64) (hpg : PgOk pg) (h : size.toNat < 2 ^ 64 - 1 - 4 * pg.toNat)
+theorem recover_base (pg size base : UInt64) (hpg : PgOk pg) (h : size.toNat < 2 ^ 64 - 1 - 5 * pg.toNat)
     (hbase : base.toNat % pg.toNat = 0) (hfit : base.toNat + (layout pg size).total.toNat < 2 ^ 64) :
     unprotectedFromUser pg (base + (layout pg size).userOff) = base + (layout pg size).unprotOff := by
   obtain ⟨k, hk5, hk30, hk⟩ := hpg
   have _ := hfit   -- not needed: the identity holds modulo 2^64 for every aligned base
-  exact AllocP.recover_base pg size base k hk5 hk30 hk h hbase
+  exact AllocP.recover_base pg size base k hk5 hk30 hk (by omega) hbase
 
 /-- oversized requests fail with ENOMEM, exactly those -/
 theorem malloc_enomem_iff (pg size : UInt64) (hpg : PgOk pg) :
-    sodium_malloc pg size = .enomem ↔ 2 ^ 64 - 1 - 4 * pg.toNat ≤ size.toNat := by
+    sodium_malloc pg size = .enomem ↔ 2 ^ 64 - 1 - 5 * pg.toNat ≤ size.toNat := by
   obtain ⟨k, hk5, hk30, hk⟩ := hpg
   exact AllocP.malloc_enomem_iff pg size k hk5 hk30 hk
 
@@ -95,7 +86,7 @@ theorem allocarray_spec (pg count size : UInt64) :
 /-- Protection state machine, for every history of noaccess / readonly / readwrite requests:
     every page of the user region has the protection of the last request (read-write initially),
     the two guard pages stay inaccessible and the header page read-only. -/
-theorem protections (pg size : UInt64) (hpg : PgOk pg) (h : size.toNat < 2 ^ 64 - 1 - 4 * pg.toNat)
+theorem protections (pg size : UInt64) (hpg : PgOk pg) (h : size.toNat < 2 ^ 64 - 1 - 5 * pg.toNat)
     (hsmall : (layout pg size).total.toNat < 2 ^ 62) (L : Layout) (calls : List Sys)
     (hm : sodium_malloc pg size = .ok L calls) (ops : List Op) (i : Nat) (hi : i < L.total.toNat / pg.toNat) :
     (pagesAfter pg L calls ops)[i]? = some
@@ -103,8 +94,8 @@ theorem protections (pg size : UInt64) (hpg : PgOk pg) (h : size.toNat < 2 ^ 64 
        else if i = 1 ∨ i = L.total.toNat / pg.toNat - 1 then Prot.none
        else (ops.getLast?.map Op.prot).getD Prot.rw) := by
   obtain ⟨k, hk5, hk30, hk⟩ := hpg
-  have _ := hsmall   -- not needed: a wrapped total_size (= 0) has no pages, otherwise nothing wraps
-  exact AllocP.protections pg size k hk5 hk30 hk h L calls hm ops i hi
+  have _ := hsmall   -- not needed: nothing wraps for an accepted size
+  exact AllocP.protections pg size k hk5 hk30 hk (by omega) L calls hm ops i hi
 
 /-- freeing works from any protection state: its first call makes the whole mapping read-write
     (so the canary comparison and the header read cannot fault), then unlocks and unmaps exactly it -/
@@ -131,9 +122,8 @@ example : pagesAfter 4096 (layout 4096 5000)
     [.mmap 20480, .mprotect 4096 4096 .none, .mprotect 16384 4096 .none, .mlock 8192 8192, .mprotect 0 4096 .ro]
     [] = [.ro, .none, .rw, .rw, .none] := by decide
 
-/-- the wrap-around window is inhabited: size = 2^64 − 4·4096 − 2 is accepted with total_size 0 -/
-example : sodium_malloc 4096 0xFFFFFFFFFFFFBFFE ≠ .enomem ∧ (layout 4096 0xFFFFFFFFFFFFBFFE).total = 0 := by
-  decide
+/-- the sizes of the former wrap-around window are now refused -/
+example : sodium_malloc 4096 0xFFFFFFFFFFFFBFFE = .enomem := by decide
 
 /-- array overflow is refused, a fitting product is passed on -/
 example : sodium_allocarray 4096 0x100000000 0x100000000 = .enomem := by decide
